@@ -103,6 +103,7 @@ def run(prog: Program, rep, thorough: bool) -> None:
                 D = C.mk_quantity(ev, st, prog, 'Distance', 'D', 'Yard')
                 da = C.mk_quantity(ev, st, prog, 'Angular', 'da', 'Mil')
                 wa = C.mk_quantity(ev, st, prog, 'Angular', 'wa', 'Mil')
+                ev.divisors = []
                 try:
                     if entry is ga:
                         r, st = ev.call_value(ga, [D, da, wa, S('m')], self_val=sight, st=st)
@@ -111,6 +112,15 @@ def run(prog: Program, rep, thorough: bool) -> None:
                         r, st = ev.call_value(gta, [row, S('m')], self_val=sight, st=st)
                 except Undecided as exc:
                     raise AnalysisError(f'{entry.qualname} ({fp}, clicks in {unit}): {exc}') from exc
+                # where the count is defined: a first-focal-plane count exists at any magnification and distance, an LWIR
+                # count at any distance - nothing evaluated on the way may divide by them
+                if entry is ga and fp in ('FFP', 'LWIR'):
+                    free = ('D', 'm') if fp == 'FFP' else ('D',)
+                    hit = [d_ for d_ in ev.divisors if any(d_.depends_on(s_) for s_ in free)]
+                    if hit and 'defined' not in bad:
+                        what_ = 'target distance' if hit[0].depends_on('D') else 'magnification'
+                        bad['defined'] = (f'computing the {fp} count divides by {hit[0]!r}: it fails at {what_} 0 (the muzzle row of every '
+                                          f'table), although the {fp} click does not depend on the {what_}')
                 ref_fields = None
                 if entry is gta:
                     # R3 is relative: the row-based entry must equal the direct entry on the row's own fields
@@ -136,6 +146,8 @@ def run(prog: Program, rep, thorough: bool) -> None:
                                 problem = f'{axis} clicks = {g!r}, the statement says {exp!r}'
                     if problem and axis not in bad:
                         bad[axis] = f'{problem} (clicks displayed in {unit})'
+            if 'defined' in bad:
+                rep.fail(rule, mun.path, entry.node.lineno, entry.qualname, f'{fp}:defined', f'{fp} sight: {bad.pop("defined")}')
             for axis in ('vertical', 'horizontal'):
                 if axis in bad:
                     rep.fail(rule, mun.path, entry.node.lineno, entry.qualname, f'{fp}:{axis}',
